@@ -6,7 +6,11 @@ import (
 )
 
 func ProcessJavaFile(path string) *parser.JavaParser {
-	is, _ := antlr.NewFileStream(path)
+	is, err := antlr.NewFileStream(path)
+	if err != nil {
+		// a file that cannot be read (a dangling link, a link to a directory) is an empty unit, not a nil stream
+		return ProcessJavaString("")
+	}
 	return processStream(is)
 }
 
